@@ -1623,9 +1623,7 @@ class Normalizer:
                         prod = _mk({(s_, (ch_[1:] + ch_[:1]) if (len(ch_) >= 3 and isvec(ch_[0]) and isvec(ch_[1])) else ch_): k_ for (s_, ch_), k_ in prod})
                     return p_had(prod, p_pow(self._as_scalar(sw), -1))
                 if axis == Fraction(1):
-                    # A @ w written with the vector first, w @ A^T: one spelling for a matrix-vector product (its total
-                    # is then not mistaken for a cyclic trace of another product)
-                    return p_had(p_matmul(pw, p_T(inner, self.symmetric)), p_pow(self._as_scalar(sw), -1))
+                    return p_had(p_matmul(inner, pw), p_pow(self._as_scalar(sw), -1))
         has_w = any(isinstance(r, tuple) and r and r[0] == "weights" for r in rest)
         if op == "average" and not has_w:
             op = "mean"
